@@ -593,3 +593,12 @@ Theorem C03_autolink_hypotheses :
   (auto_ok [] 104%Z ($"ttp") ($"//a b") [] = false) /\ (auto_ok [] 104%Z [] ($"x") [] = false) /\ (auto_ok [] 49%Z ($"a") ($"x") [] = false).
 Proof. split; [exact auto_configs|exact auto_instance]. Qed.
 Print Assumptions C03_autolink_hypotheses.
+
+(* ... and the autolink is an inline element of leaf FOne (IAuto): tokens, HTML and Markdown round trip at every nesting depth *)
+Theorem C03_fragment_autolink_instance :
+  let t := FQuote [FOne 115 $"ee " (IAuto 104 $"ttp" $"//user@host.ex/p") $"."] in
+  wf_b t = true /\ text_of (spell t) = [ $"> see <http://user@host.ex/p>." ++ [10%Z] ] /\
+  html_f (mkHopts false false) true (FOne 115 $"ee " (IAuto 104 $"ttp" $"//user@host.ex/p") $".") =
+    $"see <a href=" ++ [34%Z] ++ $"http://user@host.ex/p" ++ [34%Z] ++ $">http://user@host.ex/p</a>.".
+Proof. vm_compute. repeat split; reflexivity. Qed.
+Print Assumptions C03_fragment_autolink_instance.
